@@ -1,4 +1,5 @@
-"""C15 — every simulator survives every opcode from every state, deterministically (MSP430 modelled; others explored)."""
+"""C15 — every simulator survives every opcode from every state, deterministically (MSP430, tms1000, 8008, lc3, 6502 modelled;
+others explored)."""
 import os, re
 import nvlib, gen_msp430 as G, msp430_ref as R, gen_simx
 
@@ -27,6 +28,7 @@ THEOREMS = [
 ]
 REG_NAME_PROBES = ["nosuchreg", "r", "r8", "r9", "r15", "r16", "r31", "r32", "r64", "r99", "r100", "r:", "rz", "r/", "R8", "x8",
                    "x31", "x32", "x99", "$0", "$31", "$32", "$99", "a0", "d8", "f32", "sp", "pc", "r-1", "w8", "r4294967296", "x4294967327", "r00000000008", "$-1", "x-1"]
+STOP_CLEARED = ["tms1000", "8008"]          # run() starts with stop_running = false (f100_l too: not modelled yet)
 SIMX_MODELLED = ["tms1000", "8008", "lc3", "6502"]   # simulators with a Lean step model tied by the `simx` stream
 SIMULATORS = {   # cpu_list name -> register names accepted by its set_reg (a few), value mask
     "msp430": (["r4", "r5", "sp", "sr"], 0xffff), "1802": (["r0", "r1", "d"], 0xffff), "6502": (["a", "x", "y", "sp"], 0xff),
@@ -36,15 +38,32 @@ SIMULATORS = {   # cpu_list name -> register names accepted by its set_reg (a fe
     "tms1000": (["a", "x", "y"], 0xffff), "tms9900": (["r0", "r1"], 0xffff), "z80": (["a", "b", "hl", "sp"], 0xffff),
 }
 RULE = ("msp430: the C14 `sim` stream (stratified over all opcode strata; all 65,536 first words in the thorough tier) run "
-        "twice in separate processes; simstep: for each of the 15 simulators, first opcode byte exhaustive (0..255, then 256 "
-        "word patterns) then random, x random memory and register values set through set_reg, one step in two fresh objects; "
-        "distinct = distinct lines; non-trivial = the step executed (return value 0).")
-MODELLED = "SimulateMsp430 (step, determinism, register-index safety, write set); disasm_msp430 length (table-driven model, exhaustive)"
-NOT_MODELLED = ("explored only by the sanitised two-run sweep, no model and no proof: 1802, 6502, 65816, 8008, avr8, ebpf, f100_l, "
-                "lc3, mips, riscv, stm8, tms1000, tms9900, z80")
+        "twice in separate processes; simx (tms1000, 8008, lc3, 6502): COMPLETE simulator state (every data member, the static "
+        "stop_running, cycle_count, show) x first opcode byte exhaustive x sampled operands x boundary states (PC at the top of "
+        "memory, SP at both ends of its stack, index registers 0 / max, RAM cells 0 / max), model against the real object; "
+        "simstep: for each of the 15 simulators three fresh objects allocated from memory filled 0x00 / 0xff / 0x01 (uninitialised "
+        "members), first opcode byte exhaustive in both byte positions, all registers at edge values, MIPS / RISC-V words field by "
+        "field with every pair of {0, 1, -1, INT_MIN, INT_MAX} in the source registers, long runs of branches, 64- and 300-step "
+        "runs, 1 in 16 with the constructor's break_io (forked), set_reg name probes; distinct = distinct lines; non-trivial = the "
+        "step executed (return value 0).")
+MODELLED = ("SimulateMsp430 (step, determinism, register-index safety, write set); disasm_msp430 length (table-driven model, exhaustive); "
+            "SimulateTms1000, Simulate8008, SimulateLc3, Simulate6502: one step of run(-1, 1) statement by statement over an explicit "
+            "state with every C array access checked (ram[64], reg[8], stack[8], the regenerated tms1000_* tables, "
+            "table_6502_opcodes[256], disasm_6502 lengths[256]), reset / set_reg / set_pc / push, the static stop_running, "
+            "break_io exit (6502); PC advance against the disassembler (tms1000 LFSR tables, 6502 disasm_6502 length)")
+NOT_MODELLED = ("explored only by the sanitised three-object sweep, no model and no proof: 1802, 65816, avr8, ebpf (run() prints 'CPU "
+                "not supported'), f100_l, mips, riscv, stm8, tms9900, z80.  In the modelled simulators: the display loop of "
+                "show == true beyond its table indices and lengths, serial devices (init_serial), break_point other than -1, the "
+                "auto-run loop (only msp430 has `simrun`), signed overflow of cycle_count after 2^31 cycles")
 ASSUMPTIONS = ["pc_advance is proved for defined, non-branching instructions on the length model disLen, which is validated "
                "against the real disasm_msp430 on all 65,536 first words on every run",
-               "writes_inside_address_space is proved for every state (after fixes 1402eee, d9b06ff)"]
+               "writes_inside_address_space is proved for every state (after fixes 1402eee, d9b06ff)",
+               "tms1000 / 8008 / 6502 safety is proved for states inside the invariant the simulator maintains (tms1000: nibble "
+               "ranges; 8008: sp < 8; 6502: A, X, Y, SP in 0..255), which reset establishes and set_reg / set_pc / push / the step "
+               "keep (proved); lc3 needs no invariant",
+               "the 6502 disassembler length is the regenerated table of disasm_6502's return value for each of the 256 first "
+               "bytes (the translator calls the real function on every run)",
+               "the step models are tied to the real objects by the simx stream only (differential, sampled operands)"]
 TRUSTED_BASE = ["tools/msp430_ref.py length() (independent instruction-length function used by the pc_advance search)"]
 
 
@@ -367,7 +386,19 @@ def oracle(ctx, orc, focus=None):
                                     "expected": "no write at or above 0x%x" % gen_simx.MEM_LIMIT[cpu],
                                     "observed": ",".join("%x" % x for x in outside),
                                     "what": "memory outside the simulated address space written", "replay_line": l})
+    # simulators whose run() clears the static stop_running: a step must not depend on what an earlier run (HLT, Ctrl-C) left in it
+    twins = [l for l in sx if l.split(" ")[1] in STOP_CLEARED and ",stop=1," in l]
+    tw0 = [l.replace(",stop=1,", ",stop=0,") for l in twins]
+    ta, tb = ctx.impl(twins), ctx.impl(tw0)
+    for l, a, b in zip(twins, ta, tb):
+        orc["cases"] += 1
+        if a != b:
+            cpu = l.split(" ")[1]
+            orc["failures"].append({"sig": "C15:simx:%s:stale-stop-running" % cpu, "input": l[:1500], "expected": b[:300],
+                                    "observed": a[:300], "what": "the step depends on the static stop_running left by an earlier run",
+                                    "replay_line": l})
     stats["simx"] = sxs
+    stats["stop_running_twins"] = len(twins)
     nvlib.log("C15 distinct failure signatures: " + ", ".join(sorted(set(f["sig"] for f in orc["failures"]))))
     stats["unmodelled_simulators"] = sorted(set(SIMULATORS) - {"msp430"} - set(SIMX_MODELLED))
     orc["stats"] = stats
